@@ -157,6 +157,11 @@ def chain_future(
     def copy(a: "Future[_T]") -> None:
         if b.done():
             return
+        if a.cancelled():
+            # a.exception()/a.result() would raise CancelledError here and
+            # leave b pending forever; propagate the cancellation instead.
+            b.cancel()
+            return
         if hasattr(a, "exc_info") and a.exc_info() is not None:  # type: ignore
             future_set_exc_info(b, a.exc_info())  # type: ignore
         else:
